@@ -168,7 +168,7 @@ def judge(ctx: core.Ctx, case: dict[str, Any]) -> None:
     ctx.ok((src, case.get("msg"), case.get("vars"), case.get("count"), case.get("plural")), nontrivial=("%" in msg or "count" in case or bool(vars_)))
 
 
-TOKENS = ["Hello", " ", "%", "%%", "%s", "%d", "%(you)s", "%(n)s", "(", ")", "\n  ", "<b>", "{", "100%", "%(", ")s", "é"]
+TOKENS = ["Hello", " ", "%", "%%", "%s", "%d", "%(you)s", "%(n)s", "%(count)s", "(", ")", "\n  ", "<b>", "{", "100%", "%(", ")s", "é"]
 TAG_TOKENS = ["Hello", " ", "%", "%%", "%s", "%(you)s", "(", ")", "\n  ", "<b>", "100%", "{{ you }}", "{{ n }}", "é", "  "]
 COUNTS: list[Any] = [-1, 0, 1, 2, 5, "2", 1.0, None]
 
@@ -192,6 +192,10 @@ def cases(ctx: core.Ctx):
                 c["count"] = V.enc(rng.choice(COUNTS[:-1]))
                 if rng.random() < 0.5:
                     c.setdefault("vars", {})["n"] = 3
+            elif f == "t" and idx % 4 == 1:
+                c["count"] = V.enc(rng.choice(COUNTS[:-1]))  # a count without a plural form: still a message variable
+            elif f in ("gettext", "pgettext") and idx % 4 == 2:
+                c.setdefault("vars", {})["count"] = rng.choice([3, "x"])
             if f in ("pgettext", "npgettext") or (f == "t" and idx % 6 == 0):
                 c["context"] = rng.choice(["ctx", "", "%"])
             yield c
